@@ -33,6 +33,7 @@ import (
 	"strconv"
 	"strings"
 	"sync"
+	"syscall"
 	"testing"
 	"time"
 
@@ -553,6 +554,7 @@ func InChild(testName, payload string, timeout time.Duration) (out string, abnor
 	defer cancel()
 	cmd := exec.CommandContext(ctx, os.Args[0], "-test.run", "^"+testName+"$", "-test.v")
 	cmd.Env = append(os.Environ(), "VERIF_CHILD="+payload, "VERIF_OUT="+filepath.Join(S.OutDir, "child"), "GOTRACEBACK=single")
+	cmd.SysProcAttr = &syscall.SysProcAttr{Pdeathsig: syscall.SIGKILL} // never outlive the parent
 	b, err := cmd.CombinedOutput()
 	return string(b), err != nil
 }
@@ -561,4 +563,12 @@ func InChild(testName, payload string, timeout time.Duration) (out string, abnor
 func ChildPayload() (string, bool) {
 	p, ok := os.LookupEnv("VERIF_CHILD")
 	return p, ok
+}
+
+// Bump adds n evaluations that were executed elsewhere (worker processes) to a sub-check's count.
+func (s *Sink) Bump(sub string, n int64) {
+	s.mu.Lock()
+	s.evals += n
+	s.subEvals[sub] += n
+	s.mu.Unlock()
 }
